@@ -60,6 +60,12 @@ static void report_race(uintptr_t addr, int t1, bool w1, uint32_t pc1, int t2, b
   if (b < a) std::swap(a, b);
   std::string site = a + "|" + b;
   std::string where = what ? std::string(what) : data_site(addr);
+  if (sym_is_atomic_func(s1) && sym_is_atomic_func(s2)) {
+    // both accesses come from functions that synchronise with atomic instructions the detector does not model
+    SH->unmodelled_sync++;
+    logf("NOTE unmodelled synchronisation: %s vs %s on %s", s1.c_str(), s2.c_str(), where.c_str());
+    return;
+  }
   SH->races_seen++;
   violation("race", site.c_str(), "%s by task %d in %s vs %s by task %d in %s on %s", w1 ? "write" : "read", t1, s1.c_str(),
             w2 ? "write" : "read", t2, s2.c_str(), where.c_str());
